@@ -200,7 +200,7 @@ func runCheck(repo, prop, tier string) int {
 		}
 	}
 	for _, lm := range w.cons.Lemmas {
-		if !hasProp(lm.Props, prop) {
+		if !hasProp(lm.Props, prop) || lm.Axiom {
 			continue
 		}
 		vc, err := w.VerifyLemma(lm)
